@@ -94,10 +94,14 @@ func main() {
 			os := byID[id]
 			ok := true
 			var tmax float64
+			anyLive := false
 			for _, o := range os {
 				good := o.Result == "unsat"
 				if o.Canary {
-					good = o.Result != "unsat"
+					good = true
+					if o.Result != "unsat" {
+						anyLive = true
+					}
 				}
 				if !good {
 					ok = false
@@ -105,6 +109,9 @@ func main() {
 				if o.Time > tmax {
 					tmax = o.Time
 				}
+			}
+			if os[0].Canary && !anyLive {
+				ok = false
 			}
 			if !ok {
 				bad++
